@@ -198,6 +198,7 @@ type caseRun struct {
 	asyncErrs  int
 	lt         *lifetime
 	mergeSeg   map[uint64]bool // segment ids whose Persist is a merge's (for the fault injector's categories)
+	jobErrInjected bool        // Faults: an operation of the persister's current job failed by injection (its error is not ErrClosed)
 
 	// closerace (closerace.go)
 	gate       *persistGate // holds the persister inside one Persist of its own job
@@ -443,13 +444,14 @@ func (c *caseRun) trace(kind string, snap *index.Snapshot, x uint64) {
 	case "grab":
 		c.grabSegs = snapIDs(snap)
 		c.jobDirFail = false
+		c.jobErrInjected = false
 		c.recordLocked(fmt.Sprintf("grab %d %d", snap.VerifEpoch(), x))
 	case "persisted":
 		if x == 0 {
 			c.recordLocked(fmt.Sprintf("ack %d", snap.VerifEpoch()))
 		} else {
 			cl := 0
-			if c.closing {
+			if c.closing && !c.jobErrInjected {
 				cl = 1
 			}
 			if !c.jobDirFail {
